@@ -124,6 +124,13 @@ def run_config(chk, facts, cfg):
            key="oid|shape", detail="ObjectId must wrap one private u64")
     n_reads = n_cons = 0
     nbodies = 0
+    # the id generator (today ObjectId::next) by what it does: the hand-written function that returns an ObjectId and performs
+    # an atomic fetch_add
+    NEXT = OID + "::next"
+    gens = [b.path for b in facts.all_bodies("write_fonts") if not b.d.get("derived") and b.locals and b.locals[0][0] == OID
+            and any(t.callee.endswith("::fetch_add") for _, t in b.calls())]
+    if len(gens) == 1:
+        NEXT = gens[0]
     for b in facts.all_bodies("write_fonts", kinds=("fn", "closure", "const")):
         nbodies += 1
         derived = b.d.get("derived")
@@ -148,13 +155,13 @@ def run_config(chk, facts, cfg):
                     if isinstance(e, list) and e[0] == "f" and len(e) > 3 and e[3] == OID:
                         n_reads += 1
                         # feature dot2: node labels of a debug .dot rendering, not font bytes
-                        ok = bool(derived) or b.path == "write_fonts::graph::ObjectId::next" or b.file.endswith("graph/graphviz.rs")
+                        ok = bool(derived) or b.path == NEXT or b.file.endswith("graph/graphviz.rs")
                         chk.ob("C07-b", f"ObjectId.0 accessed in {b.path} (derived impl)" if ok else f"ObjectId.0 accessed in {b.path}", ok,
                                key=f"oid-read|{b.path}", file=b.file, line=st[3][0], fn=b.path,
                                detail="the numeric value of an object id is process-history dependent; only Ord/Eq/Hash (derived) may see it")
             if rv[0] == "agg" and rv[1][0] == "adt" and rv[1][1] == OID:
                 n_cons += 1
-                chk.ob("C07-b", f"ObjectId constructed in {b.path}", b.path == "write_fonts::graph::ObjectId::next" or bool(derived),
+                chk.ob("C07-b", f"ObjectId constructed in {b.path}", b.path == NEXT or bool(derived),
                        key=f"oid-cons|{b.path}", file=b.file, line=st[3][0], fn=b.path)
             if rv[0] == "cast" and (rv[4].replace("&", "").strip() == OID or OID in rv[4]) and rv[1] in ("Transmute", "IntToInt", "PtrToPtr"):
                 chk.ob("C07-b", f"ObjectId cast ({rv[1]}) in {b.path}", False, key=f"oid-cast|{b.path}", file=b.file, line=st[3][0], fn=b.path)
@@ -162,7 +169,8 @@ def run_config(chk, facts, cfg):
             if "transmute" in t.callee and OID in t.d["cargs"]:
                 chk.ob("C07-b", f"ObjectId transmuted in {b.path}", False, key=f"oid-transmute|{b.path}", file=b.file, line=t.line, fn=b.path)
     chk.floor("C07-b", "ObjectId field accesses seen (derived impls + next)", n_reads, 3)
-    nxt = chk.anchor("C07-b", "ObjectId::next", facts.body("write_fonts::graph::ObjectId::next"))
+    nxt = chk.anchor("C07-b", "ObjectId::next", facts.body(NEXT))
+    chk.stats["C07-b:id_generator"] = NEXT
     fa = [t for bb, t in nxt.calls() if t.callee.endswith("::fetch_add")]
     ok = False
     if len(fa) == 1:
@@ -301,7 +309,7 @@ def run_config(chk, facts, cfg):
                 used = d is None or any(_mentions(st[2], d) for _, _, st in b.stmts() if st[0] == "A") or \
                     any(_mentions(getattr(blk.term, "args", None) or [], d) or (blk.term.kind == "switch" and _mentions(blk.term.d[1], d))
                         for blk in b.blocks) or d == 0
-                confirmed = b.path == OID + "::next"
+                confirmed = b.path == chk.stats.get("C07-b:id_generator", OID + "::next")
                 chk.ob("C07-d", f"{b.path} line {t.line}: result of {t.callee.split('::')[-1]} {'is used' if used else 'is not used'}",
                        confirmed or not used, why="object identity only (C07-b)" if confirmed else None,
                        key=f"atomic-rmw|{b.path}", file=b.file, line=t.line, fn=b.path,
